@@ -13,6 +13,7 @@ import (
 	"sync/atomic"
 	"time"
 
+	"github.com/bluenviron/gortsplib/v5"
 	"github.com/bluenviron/gortsplib/v5/pkg/base"
 	"github.com/bluenviron/gortsplib/v5/pkg/headers"
 )
@@ -136,6 +137,9 @@ type server struct {
 	wroteReq  atomic.Int32
 	killer    atomic.Bool // something was written that may kill the client (frame, garbage, close)
 	onAccept  func()      // called when a new connection is accepted
+
+	tunMu   sync.Mutex
+	tunnels map[string]net.Conn // GET connections of HTTP tunnels by session cookie
 
 	udpMu       sync.Mutex
 	udp         [2]*net.UDPConn
@@ -268,6 +272,14 @@ func (s *server) handle(c net.Conn, idx int) {
 		s.mu.Unlock()
 	}()
 	br := bufio.NewReaderSize(c, 4096)
+	w := c // where responses are written
+	if s.sc.Cfg.Tunnel != 0 {
+		var stop bool
+		br, w, stop = s.tunnelHandshake(c, br)
+		if stop {
+			return
+		}
+	}
 	for {
 		b, err := br.Peek(1)
 		if err != nil {
@@ -295,12 +307,120 @@ func (s *server) handle(c net.Conn, idx int) {
 			return
 		}
 		s.busy.Add(1)
-		stop := s.react(c, idx, &req)
+		stop := s.react(w, idx, &req)
 		s.busy.Add(-1)
 		if stop {
 			return
 		}
 	}
+}
+
+// tunnelHandshake plays the server side of RTSP-over-HTTP (or misbehaves as scripted).  For the GET
+// connection it answers and parks the connection (stop = true after the peer is gone); for the POST
+// connection it returns a reader of the decoded requests and the GET connection to answer on.
+func (s *server) tunnelHandshake(c net.Conn, br *bufio.Reader) (*bufio.Reader, net.Conn, bool) {
+	c.SetReadDeadline(time.Now().Add(3 * time.Second))
+	first, err := br.ReadString('\n')
+	if err != nil {
+		return nil, nil, true
+	}
+	cookie := ""
+	for {
+		l, err := br.ReadString('\n')
+		if err != nil {
+			return nil, nil, true
+		}
+		l = strings.TrimRight(l, "\r\n")
+		if l == "" {
+			break
+		}
+		if k, v, ok := strings.Cut(l, ":"); ok && strings.EqualFold(strings.TrimSpace(k), "X-Sessioncookie") {
+			cookie = strings.TrimSpace(v)
+		}
+	}
+	c.SetReadDeadline(time.Time{})
+	write := func(b string) {
+		c.SetWriteDeadline(time.Now().Add(2 * time.Second))
+		c.Write([]byte(b)) //nolint:errcheck
+	}
+	park := func() { // keep the connection until the peer or the server closes it
+		buf := make([]byte, 256)
+		for {
+			if _, err := c.Read(buf); err != nil {
+				return
+			}
+		}
+	}
+	okResp := "HTTP/1.0 200 OK\r\nConnection: close\r\nCache-Control: no-store\r\nContent-Type: application/x-rtsp-tunnelled\r\n\r\n"
+	if strings.HasPrefix(first, "GET ") {
+		switch s.sc.Tun {
+		case "status404":
+			write("HTTP/1.0 404 Not Found\r\nConnection: close\r\n\r\n")
+			return nil, nil, true
+		case "status500keep":
+			write("HTTP/1.1 500 Oops\r\nContent-Length: 100000\r\n\r\nshort")
+			park()
+			return nil, nil, true
+		case "garbage":
+			write("\x00\x01\x02 not http at all\r\n\r\n")
+			park()
+			return nil, nil, true
+		case "silence":
+			park()
+			return nil, nil, true
+		case "close":
+			return nil, nil, true
+		case "biglen":
+			write("HTTP/1.1 200 OK\r\nContent-Type: application/x-rtsp-tunnelled\r\nContent-Length: 1000000\r\n\r\n")
+		case "chunked":
+			write("HTTP/1.1 200 OK\r\nContent-Type: application/x-rtsp-tunnelled\r\nTransfer-Encoding: chunked\r\n\r\n")
+		case "continue":
+			write("HTTP/1.1 100 Continue\r\n\r\n" + okResp)
+		case "slow":
+			time.Sleep(time.Duration(s.sc.Cfg.RTms/2) * time.Millisecond)
+			write(okResp)
+		case "half":
+			write(okResp[:20])
+			park()
+			return nil, nil, true
+		case "hugeheader":
+			write("HTTP/1.0 200 OK\r\nX-Pad: " + strings.Repeat("a", 2<<20) + "\r\n\r\n")
+		default:
+			write(okResp)
+		}
+		s.tunMu.Lock()
+		if s.tunnels == nil {
+			s.tunnels = map[string]net.Conn{}
+		}
+		s.tunnels[cookie] = c
+		s.tunMu.Unlock()
+		park()
+		return nil, nil, true
+	}
+	// POST
+	switch s.sc.Tun {
+	case "postclose":
+		return nil, nil, true
+	case "postsilence":
+		park()
+		return nil, nil, true
+	case "postanswer": // some servers answer the POST as well
+		write("HTTP/1.0 200 OK\r\n\r\n")
+	}
+	var get net.Conn
+	for range 400 {
+		s.tunMu.Lock()
+		get = s.tunnels[cookie]
+		s.tunMu.Unlock()
+		if get != nil {
+			break
+		}
+		time.Sleep(5 * time.Millisecond)
+	}
+	if get == nil {
+		return nil, nil, true
+	}
+	return bufio.NewReaderSize(gortsplib.VerifBase64StreamReader(br), 4096), get, false
 }
 
 func hdr1r(r *wireResp, k string) string {
